@@ -17,7 +17,7 @@ FLOORS = {"had_failure": 0.1, "abandoned_retry": 0.02, "had_retry": 0.03}
 
 
 def plan(tier):
-    return [{"kind": "hypothesis", "examples": 2000 if tier == "quick" else 60000}]
+    return [{"kind": "hypothesis", "examples": 2000 if tier == "quick" else 40000}]
 
 
 @st.composite
